@@ -3,9 +3,9 @@ import os, subprocess
 from . import common as C
 
 MANIFEST = dict(
-   technique="Lean 4 proof by list induction over executeChecks (loop invariant Inv/Post, generic in value type and in all user callbacks; validatePointer's pointer pass for strings and for containers; typed Transform/Pipe pipelines) + differential correspondence of the model and of an independent clause-by-clause judge against real string, integer, slice and object schemas with logging callbacks + go/ast structure fingerprint of the engine loop",
-   text="Theorems c10_value_threading, c10_issue_order, c10_first_failing, c10_abort_stops, c10_ok_iff_no_fail, c10_runOn_ok_iff, c10_abort_stops_all (abort over the whole callback log, pointer inputs included), c10_container_all / c10_container_ok_iff / c10_container_abort (container schemas, which route every input through validatePointer), c10_transform_once, c10_pipe(_ok_iff), c10_pipeT_ok_iff + c10_base_type_error (the target's type dispatch is part of 'both succeed'), c10_base_ok_iff/_ok_value hold for every check list, input and environment of callbacks (no bound on length). The model (executeChecks, validatePointer as of /repo 49e6e91, ZodTransform/ZodPipe) is tied to /repo by (1) real String()/StringPtr() pipelines, (2) pipelines over String / Int / Slice[int] / Object bases with built-in checks, Refine/RefineAny/Check (multi-issue)/Overwrite, abort and when, Transform/Pipe chains across types incl. nil-returning transforms and ill-typed pipe targets, comparing verdict, value, issue positions and multiplicities, callback log, and judging the implementation's observation clause by clause (seenAt/failsAt/abortAt) independently of the model's loop, (3) the go/ast statement skeleton of executeChecks, CheckAborted, RunChecksOnValue, ApplyChecks, hasOverwriteCheck, validatePointerWithOverwrite, validatePointer, validateWithChecks compared with Model/ChecksShape.lean.",
-   note="Trusted: Lean kernel; axioms propext/Classical.choice/Quot.sound at most; Go harness + comparer; the classification of checks that do nothing on a raw pointer payload (vacU). Built-in check evaluations are not observable (only user callbacks are logged). Value threading over the whole callback log is false for pointer inputs with overwrites (the pointer pass after acceptance calls When guards on the un-overwritten payload): witness c10_first_pass_witness, open finding; c10_value_threading_partial states the excluded region. The defects of the code before 49e6e91 are kept as theorems about legacyRunChecksOn / legacyRunChecksC. Non-string pointer inputs with overwrites are not generated.",
+   technique="Lean 4 proof by list induction over executeChecks (loop invariant Inv/Post, generic in value type and in all user callbacks; validatePointer's pointer pass for strings and for containers; typed Transform/Pipe pipelines) + differential correspondence of the model and of an independent clause-by-clause judge against real string, integer, slice and object schemas with logging callbacks + go/ast structure fingerprint of the engine loop + behavioural table of what every schema type's wrappers do with a raw pointer payload, regenerated on every run",
+   text="Theorems c10_value_threading, c10_issue_order, c10_first_failing, c10_abort_stops, c10_ok_iff_no_fail, c10_runOn_ok_iff, c10_abort_stops_all (abort over the whole callback log, pointer inputs included), c10_container_all / c10_container_ok_iff / c10_container_abort (container schemas, which route every input through validatePointer), c10_transform_once, c10_pipe(_ok_iff), c10_pipeT_ok_iff + c10_base_type_error (the target's type dispatch is part of 'both succeed'), c10_base_ok_iff/_ok_value hold for every check list, input and environment of callbacks (no bound on length); c10_generic_all / c10_generic_ok_iff / c10_generic_abort: the same for EVERY schema type and input route, whatever its wrappers do with the raw pointer payload of validatePointer's second pass (strings and containers are instances: runChecksG_string, runChecksG_container) — an overwrite is applied to the value once; c10_baseG_ok_iff / c10_baseG_type_error / c10_pipeG_ok_iff / c10_pipeG_first_fails / c10_transformG_once: pipelines with each stage's type dispatch, a type error names its stage; c10_rawclass_expected / _total / _containers / _strings over the whole regenerated table Gen/RawClass.lean. The model (executeChecks, validatePointer as of /repo 49e6e91, ZodTransform/ZodPipe) is tied to /repo by (1) real String()/StringPtr() pipelines, (2) pipelines over String / StringPtr / Int / IntPtr / Slice[int] / Object bases, value and pointer inputs of every kind, root pipes through ZodIntegerTyped.Pipe, with built-in checks, Refine/RefineAny/Check (multi-issue)/Overwrite, abort and when, Transform/Pipe chains across types incl. nil-returning transforms and ill-typed pipe targets, comparing verdict, value, issue positions and multiplicities, callback log, and judging the implementation's observation clause by clause (seenAt/failsAt/abortAt) independently of the model's loop, (3) the go/ast statement skeleton of executeChecks, CheckAborted, RunChecksOnValue, ApplyChecks, hasOverwriteCheck, validatePointerWithOverwrite, validatePointer, validateWithChecks compared with Model/ChecksShape.lean.",
+   note="Trusted: Lean kernel; axioms propext/Classical.choice/Quot.sound at most; Go harness + comparer; the raw-payload table is behavioural (one probe per cell) and matters for the callback log only (c10_rawclass_irrelevant). Built-in check evaluations are not observable (only user callbacks are logged). Value threading over the whole callback log is false for pointer inputs with overwrites (the pointer pass after acceptance calls When guards on the un-overwritten payload): witness c10_first_pass_witness, open finding; c10_value_threading_partial states the excluded region. The defects of the code before 49e6e91 are kept as theorems about legacyRunChecksOn / legacyRunChecksC.",
    design="DESIGN.md §5 C10; notes/C10.md")
 
 MODULES = ["Gozod.Proofs.C10", "Gozod.Proofs.C10C", "Gozod.Proofs.C10G", "Gozod.Proofs.C10Raw"]
@@ -101,9 +101,9 @@ def _run(res):
     res.coverage["rule"] = ("c10 lines: random pipelines of String()/StringPtr() bases with 0-8 checks drawn from Min/Max/Length/StartsWith/EndsWith/Includes/"
         "Lowercase/Uppercase (constants near the input's length / fragments of the input), Trim/ToLowerCase/ToUpperCase/custom overwrites, "
         "refinements (35% abort, 35% when-guard), wrapped 0-3 deep in Transform/Pipe; ASCII inputs of length 0-8 incl. leading/trailing spaces, passed as string or *string. "
-        "c10u lines: bases String / Int / Slice[int](Int()) / Object{a,b} with 0-6 checks (built-ins of the type, Refine/RefineAny with CustomParams, multi-issue Check functions pushing 0-3 issues, custom overwrites), "
-        "0-3 levels of Transform/Pipe with same-type, type-changing and nil-returning transforms, 8% pipe targets of another kind than their input; "
+        "c10u lines: bases String / StringPtr / Int / IntPtr / Slice[int](Int()) / Object{a,b}, inputs as values or (35%) pointers, with 0-6 checks (built-ins of the type, Refine/RefineAny with CustomParams, multi-issue Check functions pushing 0-3 issues, custom overwrites), "
+        "0-3 levels of Transform/Pipe with same-type, type-changing and nil-returning transforms, 8% pipe targets of another kind than their input (type errors observed and judged per stage), root pipes from an Int base through ZodIntegerTyped.Pipe (PM); "
         "c10shape lines: one per fingerprinted engine function. distinct = distinct op lines.")
     res.assumptions += ["callbacks are the harness' fixed deterministic family (theorems quantify over all)",
-                        "non-string values are passed as values (no pointer inputs for Int/Slice/Object bases)"]
+                        "a Default short-circuiting a Transform (documented in ZodTransform.Parse) is read as outside 'on a type-correct input'"]
     return res.finish()
